@@ -60,6 +60,8 @@ def _case(draw, tier):
         "np_seed": draw(st.integers(0, 2**31 - 1)),
         "rich": draw(st.booleans()),
         "dup": draw(st.sampled_from([0, 0, 0, 1, 2])),
+        # soft-masked databases: stretches of lower-case residues (they are residues like any other: reproduced as they are)
+        "softmask": draw(st.sampled_from([False, False, True])),
     }
 
 
@@ -91,6 +93,7 @@ def check(case):
     from mokapot.parsers import fasta as mf
 
     rng = np.random.default_rng(case["seed"])
+    mrng = np.random.default_rng(case["seed"] ^ 0x50F7)
     alpha = "KRPAGM" if case["rich"] else AA
     targets = []
     ndup = 0
@@ -106,6 +109,10 @@ def check(case):
                 seq = "".join(alpha[int(i)] for i in rng.integers(0, len(alpha), L))
                 if L and rng.random() < 0.1:
                     seq = seq[:-1] + "*"
+                if case.get("softmask") and L and mrng.random() < 0.5:
+                    a_ = int(mrng.integers(0, L))
+                    b_ = int(mrng.integers(a_, L + 1)) if mrng.random() < 0.8 else L
+                    seq = seq[:a_] + seq[a_:b_].lower() + seq[b_:]
                 name = f"sp|P{k:05d}|PROT{k}"
                 k += 1
                 dup = case.get("dup", 0)
@@ -190,4 +197,6 @@ def check(case):
         classes.append("output-path-held-an-earlier-result")
     if ndup:
         classes.append("repeated-accession" if case.get("dup") == 1 else "input-entry-with-decoy-prefix")
+    if case.get("softmask") and any(q != q.upper() for _, q in targets):
+        classes.append("lower-case-residues")
     return {"nontrivial": rich_prot, "classes": classes, "counters": {"proteins": n, "peptides_checked": npep}}
